@@ -469,6 +469,48 @@ configuration cfg@ of ent@ is
   end for;
 end configuration;
 """,
+    "seq": """entity seq@ is
+end entity;
+architecture a of seq@ is
+  function f (n : integer) return integer is
+    variable x : integer := 0;
+  begin
+    outer : for i in 0 to n loop
+      inner : while x < 10 loop
+        x := x + 1;
+        nx : next outer when x = 3;
+        ex : exit inner when x = 5;
+      end loop inner;
+    end loop outer;
+    check : if x > 2 then
+      asg : x := 1;
+    elsif x > 1 then
+      nul : null;
+    else
+      rep : report "r";
+    end if check;
+    sel : case x is
+      when 0 => ass : assert false report "a";
+      when others => null;
+    end case sel;
+    ret : return x;
+  end function;
+  signal sg : bit;
+begin
+  p : process
+    variable v : integer;
+  begin
+    lbl : v := 1;
+    sa : sg <= '1';
+    w : wait for 1 ns;
+    lp : loop
+      exit lp;
+    end loop lp;
+    c2 : case v is when others => i2 : if v = 1 then v := 2; end if i2; end case c2;
+    wait;
+  end process p;
+end architecture;
+""",
     "tb": """library ieee; context work.ctx@;
 use work.pkg@.all; use work.ipkg@.all;
 entity tb@ is end entity;
@@ -645,13 +687,18 @@ def run_model(tools, lines_in, d, tag):
 
 
 def reduced_spec(spec, step_idx, file, ranges):
-    """Session restricted to one file of one step (earlier steps keep their edits, lose their queries)."""
+    """Session restricted to one file (earlier steps keep their edits and the queries of that file)."""
     steps = []
     for i, st in enumerate(spec["steps"][:step_idx + 1]):
-        steps.append({"edit": st.get("edit"), "query": [file] if i == step_idx else []})
+        st2 = {k: v for k, v in st.items() if k != "query"}
+        q = [file]                # earlier queries of the file stay: they fill the server's token cache
+        if i == step_idx and spec.get("fresh_compare"):
+            q = st["query"]           # the fresh-server comparison uses the last step's queries
+        st2["query"] = q
+        steps.append(st2)
     sp = dict(spec)
     sp["steps"] = steps
-    sp["ranges"] = {"%d:%s" % (step_idx, file): ranges}
+    sp["ranges"] = {"%d:%s" % (i, file): (ranges if i == step_idx else []) for i in range(step_idx + 1)}
     return sp
 
 
@@ -670,10 +717,20 @@ def run_session(spec, tools, res, stats, sess_rng):
         hed = None
         if ed:
             hed = {"file": abs_of(root, ed["file"]), "text": spec_text(ed["spec"])}
-        hsteps.append({"edit": hed, "files": [abs_of(root, f) for f in st["query"]]})
+        disk = []
+        for rel, fs in (st.get("disk") or {}).items():
+            if fs is None:
+                disk.append({"path": abs_of(root, rel), "delete": True})
+            else:
+                disk.append({"path": abs_of(root, rel), "hex": disk_bytes(spec_text(fs)).hex()})
+        if st.get("toml") is not None:
+            disk.append({"path": os.path.join(root, "vhdl_ls.toml"), "hex": st["toml"].encode("utf-8").hex()})
+        hsteps.append({"disk": disk, "reload": bool(st.get("notify")), "edit": hed,
+                       "files": [abs_of(root, f) for f in st["query"]]})
+    has_reload = any(st.get("notify") or st.get("disk") or st.get("toml") is not None for st in spec["steps"])
     script = os.path.join(d, name + ".script.json")
     hout = os.path.join(d, name + ".harness.json")
-    json.dump({"root": root, "steps": hsteps}, open(script, "w"))
+    json.dump({"root": root, "dump_text": has_reload, "steps": hsteps}, open(script, "w"))
     rc, out = run([tools.hbin, script, hout], timeout=1800)
     if rc != 0:
         res.violation("harness c16 failed on session %s (rc %d)" % (name, rc),
@@ -690,8 +747,11 @@ def run_session(spec, tools, res, stats, sess_rng):
             break
 
     # ---- LSP server
+    if has_reload:
+        texts = materialise(spec, root)        # the harness run has changed the files on disk
     ls = L.LS(tools.lsbin, root)
     counter = {"n": 0}
+    last_answer = {}
 
     def make_report(si, f, text, ranges):
         def report(what, extra, nf=False, rngs=None):
@@ -719,6 +779,35 @@ def run_session(spec, tools, res, stats, sess_rng):
         model_in = []      # lines for the extracted model
         model_ctx = []     # what each model line is compared with
         for si, st in enumerate(spec["steps"]):
+            # -- changes on disk / of the configuration, announced like an editor does
+            changed = []
+            for rel, fs in (st.get("disk") or {}).items():
+                p = abs_of(root, rel)
+                if fs is None:
+                    if os.path.exists(p):
+                        os.remove(p)
+                else:
+                    os.makedirs(os.path.dirname(p), exist_ok=True)
+                    with open(p, "wb") as fh:
+                        fh.write(disk_bytes(spec_text(fs)))
+                changed.append(p)
+            if st.get("toml") is not None:
+                with open(os.path.join(root, "vhdl_ls.toml"), "w") as fh:
+                    fh.write(st["toml"])
+            kind = st.get("notify")
+            if kind:
+                stats["reloads"] += 1
+                if kind == "watched":
+                    ls.notify("workspace/didChangeWatchedFiles",
+                              {"changes": [{"uri": L.uri(os.path.join(root, "vhdl_ls.toml")), "type": 2}]})
+                elif kind == "create":
+                    ls.notify("workspace/didCreateFiles", {"files": [{"uri": L.uri(p)} for p in changed]})
+                elif kind == "delete":
+                    ls.notify("workspace/didDeleteFiles", {"files": [{"uri": L.uri(p)} for p in changed]})
+                elif kind == "rename":
+                    ls.notify("workspace/didRenameFiles",
+                              {"files": [{"oldUri": L.uri(p), "newUri": L.uri(p)} for p in changed]})
+                ls.sync(timeout=600)
             ed = st.get("edit")
             if ed:
                 p = abs_of(root, ed["file"])
@@ -747,8 +836,17 @@ def run_session(spec, tools, res, stats, sess_rng):
                 if p not in texts:
                     texts[p] = src_text(p) if os.path.exists(p) else ""
                 text = texts[p]
-                lines = split_lines(text)
                 hf = hres["steps"][si]["files"][fi]
+                if "lines" in hf:
+                    # sessions with project reloads: the text the Project holds after the same operations (a file that
+                    # is already known is not read again from disk by Project::update_config)
+                    ptext = "".join(hf["lines"])
+                    if os.path.exists(p) and p not in opened:
+                        dtext = server_text_of_disk(open(p, "rb").read())
+                        if LINE_SPLIT.sub("\n", dtext) != ptext:
+                            stats["reload_text_differs_from_disk"] += 1
+                    text = ptext
+                lines = split_lines(text)
                 key = "%d:%s" % (si, f)
                 ranges = (spec.get("ranges") or {}).get(key)
                 if ranges is None:
@@ -767,6 +865,7 @@ def run_session(spec, tools, res, stats, sess_rng):
                     report("vhdl_lang panicked while collecting the references", {"panic": hf["panic"]})
                     continue
                 if full is None or not hf.get("present"):
+                    last_answer[p] = None
                     if (full is None) != (not hf.get("present")):
                         report("server and Project disagree on whether the file is known",
                                {"lsp_null": full is None, "project_present": hf.get("present")}, nf=True)
@@ -774,6 +873,7 @@ def run_session(spec, tools, res, stats, sess_rng):
                     continue
                 data = full["data"]
                 toks = decode(data)
+                last_answer[p] = toks
                 stats["files"] += 1
                 stats["tokens"] += len(toks or [])
                 cstr = "%s|full" % hashlib.sha1(text.encode("utf-8", "replace")).hexdigest()
@@ -829,7 +929,7 @@ def run_session(spec, tools, res, stats, sess_rng):
                 model_ctx.append(("O", si, f, ranges, not probs, report))
                 if len(hf["raw"]) <= 60 and len(stats["coq_sample"]) < 24:
                     stats["coq_sample"].append((hf["raw"], ranges[:3], [data] + range_answers[:3]))
-                if len(stats["samples"]) < 4 and toks and len(text) < 3000:
+                if len(stats["samples"]) < 4 and toks and ranges and len(text) < 3000:
                     stats["samples"].append({"session": name, "file": f, "tokens": len(toks),
                                              "first_tokens": [[t[0], t[1], t[2], slice16(lines[t[0]], t[1], t[2])] for t in toks[:5]],
                                              "range": ranges[0], "range_answer_tokens": len(decode(range_answers[0]) or []) if range_answers and range_answers[0] is not None else None})
@@ -881,6 +981,23 @@ def run_session(spec, tools, res, stats, sess_rng):
                                 report("flat document symbol location outside the document", {"symbol": s})
                                 break
         exit_code = 0 if died_in_edit else ls.shutdown()
+        if spec.get("fresh_compare") and not died_in_edit and spec["steps"]:
+            # the answers after the last reload must be those of a fresh server on the same workspace state
+            fl = L.LS(tools.lsbin, root)
+            fl.initialize(caps=caps)
+            si = len(spec["steps"]) - 1
+            for f in spec["steps"][-1]["query"]:
+                p = abs_of(root, f)
+                r, _ = fl.call("textDocument/semanticTokens/full", {"textDocument": {"uri": L.uri(p)}}, timeout=300)
+                ft = decode(r["result"]["data"]) if r.get("result") else None
+                stats["fresh_compared"] += 1
+                if (ft or []) != (last_answer.get(p) or []):
+                    make_report(si, f, texts.get(p, ""), [])(
+                        "semanticTokens/full after a project reload differs from the answer of a fresh server on the same "
+                        "workspace (stale tokens of the previous project state): %d tokens vs %d fresh" %
+                        (len(last_answer.get(p) or []), len(ft or [])),
+                        {"request": "full", "after_reload_head": (last_answer.get(p) or [])[:20], "fresh_head": (ft or [])[:20]})
+            fl.shutdown()
         if exit_code not in (0, None):
             res.violation("vhdl_ls exited with code %s in session %s" % (exit_code, name),
                           {"kind": "input", "session": spec if len(json.dumps(spec)) < 200000 else name,
@@ -987,8 +1104,11 @@ def corpus_sessions():
         steps = [{"edit": None, "query": c.get("query", sorted(files))}]
         for e in c.get("edits", []):
             steps.append({"edit": {"file": e["file"], "spec": {"text": e["text"]}}, "query": e.get("query", [e["file"]])})
+        for st in c.get("steps", []):
+            steps.append({"disk": {k: (None if v is None else {"text": v}) for k, v in (st.get("disk") or {}).items()},
+                          "toml": st.get("toml"), "notify": st.get("notify"), "edit": None, "query": st["query"]})
         out.append({"name": "corpus_" + c["name"], "toml": c["toml"], "files": files, "steps": steps, "nranges": 12,
-                    "hier": c.get("hier", True)})
+                    "hier": c.get("hier", True), "fresh_compare": c.get("fresh_compare", False)})
     return out
 
 
@@ -1064,6 +1184,72 @@ def session_generated(rng, name, n_proj, n_edit, hier=True):
     return {"name": name, "toml": "\n".join(toml) + "\n", "files": files, "steps": steps, "nranges": 10, "hier": hier}
 
 
+def session_reload(rng, name, n_steps):
+    """Project reloads without content changes: the library mapping of files changes in vhdl_ls.toml (moved, mapped
+    twice, unmapped), files are created / deleted on disk; announced by didChangeWatchedFiles / didCreateFiles /
+    didDeleteFiles.  The last answers are compared with a fresh server."""
+    files = gen_project(rng, "r", wild=False)
+    names = sorted(files)
+
+    def toml_of(mapping, extra=True):
+        libs = {}
+        for f, ls_ in mapping.items():
+            for l in ls_:
+                libs.setdefault(l, []).append(f)
+        out = ["[libraries]"] + ["%s.files = [%s]" % (l, ", ".join("'%s'" % f for f in sorted(fs))) for l, fs in sorted(libs.items())]
+        if extra:
+            out.append("lx.files = ['extra/*.vhd']")
+        return "\n".join(out) + "\n"
+
+    mapping = {f: ["lr"] for f in names}
+    spec = {"name": name, "toml": toml_of(mapping), "files": files, "steps": [{"edit": None, "query": names}],
+            "nranges": 6, "fresh_compare": True}
+    created = []
+    for k in range(n_steps):
+        kind = rng.choice(["move", "move", "twice", "unmap", "restore", "create", "delete"])
+        st = {"edit": None, "notify": "watched", "query": list(names)}
+        if kind == "move":
+            f = rng.choice(names)
+            mapping[f] = [rng.choice(["lr", "lo", "lp"])]
+        elif kind == "twice":
+            f = rng.choice(names)
+            mapping[f] = ["lr", rng.choice(["lo", "lp"])]
+        elif kind == "unmap":
+            mapping[rng.choice(names)] = []
+        elif kind == "restore":
+            mapping = {f: ["lr"] for f in names}
+        elif kind == "create":
+            rel = "extra/new%d.vhd" % k
+            st["disk"] = {rel: {"text": TEMPLATES["seq"].replace("@", "_n%d" % k)}}
+            st["notify"] = "create"
+            created.append(rel)
+        elif kind == "delete" and created:
+            rel = created.pop()
+            st["disk"] = {rel: None}
+            st["notify"] = "delete"
+            st["query"] = st["query"] + [rel]
+        if st["notify"] == "watched":
+            st["toml"] = toml_of(mapping)
+        st["query"] = st["query"] + list(created)
+        spec["steps"].append(st)
+    return spec
+
+
+def session_reload_disk(rng, name):
+    """The contents of a project file change ON DISK (shorter), the mapping changes, the project is reloaded.  The
+    oracle refers to the text the Project holds after the same operations (reported by the harness)."""
+    files = gen_project(rng, "d", wild=False)
+    names = sorted(files)
+    toml1 = "[libraries]\nld.files = [%s]\n" % ", ".join("'%s'" % f for f in names)
+    toml2 = "[libraries]\nld.files = [%s]\nle.files = ['%s']\n" % (", ".join("'%s'" % f for f in names[1:]), names[0])
+    short = {"text": "entity short_d is\nend entity;\n"}
+    steps = [{"edit": None, "query": names},
+             {"disk": {names[0]: short, "ent_d.vhd": short}, "toml": toml2, "notify": "watched", "edit": None, "query": names},
+             {"disk": {"seq_d.vhd": {"text": ""}}, "toml": toml1, "notify": "watched", "edit": None, "query": names},
+             {"edit": {"file": "seq_d.vhd", "spec": {"text": TEMPLATES["seq"].replace("@", "_d")[:200]}}, "query": ["seq_d.vhd"]}]
+    return {"name": name, "toml": toml1, "files": files, "steps": steps, "nranges": 6}
+
+
 # ----------------------------------------------------------------------------------------------
 # in-Coq cross-check of the extracted model
 # ----------------------------------------------------------------------------------------------
@@ -1114,7 +1300,8 @@ def main(tier, replay=None):
              "model_compared": 0, "spec_evaluated": 0, "docsym_units": 0, "model_not_nested": 0, "hier_ents": 0,
              "hier_hyp_failures": 0, "files_with_duplicate_positions": 0, "files_with_multiline_positions": 0,
              "coq_sample": [], "samples": [], "sessions": [],
-             "analysis_panics_outside_c16": [], "server_deaths_outside_c16": []}
+             "analysis_panics_outside_c16": [], "server_deaths_outside_c16": [],
+             "reloads": 0, "fresh_compared": 0, "reload_text_differs_from_disk": 0}
     sd = seed()
 
     def go(spec, tag):
@@ -1140,6 +1327,8 @@ def main(tier, replay=None):
         go(session_libs(rng, 40 if thorough else 10), "libs")
         go(session_generated(rng, "generated", 6 if thorough else 2, 150 if thorough else 20), "generated")
         go(session_generated(rng, "generated_flat", 1, 5, hier=False), "generated_flat")
+        go(session_reload(rng, "reload", 40 if thorough else 10), "reload")
+        go(session_reload_disk(rng, "reload_disk"), "reload_disk")
         if thorough:
             for k in range(8):
                 go(session_mutants(rng, "mutants%d" % k, 40, 80, nranges=12), "mutants%d" % k)
@@ -1151,12 +1340,16 @@ def main(tier, replay=None):
     res.coverage.update({k: v for k, v in stats.items()})
     res.coverage["exhaustive"] = False
     res.coverage["rule"] = (
-        "corpus workspaces first (file mapped to two libraries = F9, CRLF/CR/non-ASCII, incomplete type); then one server session per "
+        "corpus workspaces first (file mapped to two libraries = F9, library mapping changed by a project reload = F36, CRLF/CR/non-ASCII, "
+        "incomplete type, labelled sequential statements, edit sequence, flat symbols); then one server session per "
         "generated workspace: (libs) all %d files of /repo/vhdl_libraries as they are + two generated projects + a file mapped to two "
         "libraries + a non-project file + live edits; (generated) template projects with randomised layout (CRLF, tabs, Latin-1 and "
         "extended identifiers) and mutated live edits; (mutants) copies of bundled package/body groups in user libraries with one file "
         "mutated (delete a token, truncate, swap/duplicate lines, insert garbage incl. non-Latin-1 and astral characters, CRLF/CR line "
-        "endings) and further mutations sent by didChange. Per file: full request, 10 (thorough 12) line ranges (single line, empty, "
+        "endings, shift) and further mutations sent by didChange; (reload) vhdl_ls.toml rewritten (file moved to another library, "
+        "mapped twice, unmapped, restored) + didChangeWatchedFiles, files created/deleted + didCreateFiles/didDeleteFiles, every file "
+        "queried before and after, last answers compared with a fresh server; (reload_disk) file contents shortened on disk + mapping "
+        "change + reload, oracle against the text the Project holds (harness dump). Per file: full request, 10 (thorough 12) line ranges (single line, empty, "
         "inverted, beyond EOF, up to 2^32-1, whole file, random spans), documentSymbol. /repo/example_project contains no VHDL files "
         "(empty submodules) and is therefore not an input. non-trivial = full answer with >= 1 token; range answer that is a proper "
         "non-empty part of the full answer or an inverted/beyond-EOF range on a non-empty file; symbol tree with > 1 symbol; distinct "
@@ -1170,6 +1363,8 @@ def main(tier, replay=None):
         "python recogniser for identifier / operator symbol / character literal (Latin-1 letters, extended identifiers, operator "
         "symbols as delimiters, keywords or string literals)",
         "LSP transport and JSON (de)serialisation of lsp_types are exercised, not modelled",
+        "in sessions with project reloads the document text used by the oracle is the text vhdl_lang::Project holds after the same "
+        "operations (harness dump): Project::update_config re-parses already known files from memory, it does not re-read them from disk",
     ]
     res.coverage["partial"] = False
     res.assumptions = [
